@@ -539,6 +539,69 @@ pub fn post_op(e: &mut Engine, op: &Op, res: &OpRes, vi: Option<usize>, pre: &Pr
     }
 }
 
+/// A violation of ANOTHER property has ended the history: the model can no longer say what the next
+/// call should do, but the rules of C03 / C05 / C16 that need no model still apply to what the
+/// library leaves on the medium. Every file the history still had open is closed through the
+/// library (the damage a wrong pending length or chain does only reaches the medium then) and the
+/// medium is judged once more. Nothing is concluded when a close is refused.
+pub fn after_divergence(e: &mut Engine) {
+    let own = e.flags.prop.clone();
+    if !e.aborted || !matches!(own.as_str(), "C03" | "C05" | "C16") {
+        return;
+    }
+    if e.viol.is_empty() || e.viol.iter().any(|v| v.prop == own) || matches!(e.results.last(), Some(OpRes::Panic(..))) {
+        return;
+    }
+    let mut closed_ok: Option<(Op, OpRes)> = None;
+    for fs in 0..e.m.hfiles.len() {
+        if e.m.hfiles[fs].is_none() {
+            continue;
+        }
+        let op = Op::CloseFile { fl: crate::vm::Fl::Raw, fs };
+        let r = e.ex.exec(&op);
+        if !r.is_ok() {
+            return;
+        }
+        closed_ok = Some((op, r));
+    }
+    e.count("medium_judged_after_divergence");
+    let foreign = e.viol.last().map(|v| v.sig.clone()).unwrap_or_default();
+    for vi in 0..e.vs.len() {
+        let out = {
+            let st = e.ex.disk.0.borrow();
+            let Ok(snap) = Snap::open(&st.img, e.vs[vi].g.part_slot) else { continue };
+            fatref::fsck(&snap, &[], fatref::FsckMode::Live).0
+        };
+        match own.as_str() {
+            "C03" => {
+                if let Some(f) = out.findings.first() {
+                    let msg = format!("{}: {} ({} findings) - after every open file was closed; the history had diverged from the model before ({})", if f.path.is_empty() { "<root>" } else { &f.path }, f.detail, out.findings.len(), foreign);
+                    e.violate("C03", &format!("C03.{}", f.rule), &f.rule.to_string(), msg);
+                    return;
+                }
+            }
+            "C05" => {
+                if !out.lost_chains.is_empty() {
+                    let n: usize = out.lost_chains.iter().map(|c| c.len()).sum();
+                    e.violate("C05", "C05.leak", "clusters left allocated", format!("{} clusters are marked in use but belong to no file or directory after every open file was closed; the history had diverged from the model before ({})", n, foreign));
+                    return;
+                }
+            }
+            _ => {
+                if let Some((op, r)) = &closed_ok {
+                    let mvol = e.vs[vi].mvol;
+                    if e.m.hvols.iter().flatten().any(|h| h.vol == mvol) {
+                        fat_meta(e, op, r, vi, true);
+                        if e.viol.iter().any(|v| v.prop == own) {
+                            return;
+                        }
+                    }
+                }
+            }
+        }
+    }
+}
+
 fn fat_meta(e: &mut Engine, op: &Op, res: &OpRes, vi: usize, wrote: bool) {
     let vol = e.vs[vi].vol.clone();
     if wrote && vol.nfats >= 2 {
